@@ -82,7 +82,8 @@ CHECKS = {
             "optimize_log_lbfgsb, optimize_log_fmin, optimize_log_powell, optimize_cons, optimize_grid) on cheap analytic 1-4 "
             "parameter models and two real models: first evaluation = start, every evaluation within bounds, fixed parameters never "
             "varied and returned unchanged, returned point within bounds, ll(returned) = reported optimum, opt no worse than start, "
-            "arguments untouched; project up/down inverses; perturb_params within (also negative) bounds without touching its arguments.",
+            "arguments untouched; a quarter of the cases with a binding upper bound, a signed parameter with upper bound exactly 0 for the "
+            "non-log optimisers; project up/down inverses; perturb_params within (also negative) bounds without touching its arguments.",
             "optimisers are black boxes (no optimality claim); starts exactly on a bound are moved 1e-9 inside for log-parameter "
             "optimisers (exp(log x) round trip); lower bounds of the synthetic models are never None", "DESIGN.md §2 C12"),
     "C13": ("differential monitor at Misc.make_data_dict_vcf/make_data_dict/fragment_data_dict/bootstraps_from_dd_chunks, Spectrum.from_data_dict and the spectrum statistics against VCF-free counting from a generated genotype matrix (O-genotype)",
@@ -126,7 +127,8 @@ CHECKS = {
             "equal the plain projection at deep coverage, in analytic and simulated regimes.",
             "simulated regime: only exact closure properties are asserted", "DESIGN.md §2 C18"),
     "C19": ("differential monitors at Godambe.get_hess/get_grad (exactness on quadratics/linears) and at the information statistics (closed forms for Poisson models linear in parameters), plus a history checker against fresh interpreters",
-            "Random quadratics/linears with zero, tiny and negative parameters (one-sided stencils); H, J, cU against closed forms to O(eps^2); "
+            "Random quadratics/linears with zero, tiny and negative parameters (one-sided stencils); H, J, cU against closed forms to O(eps^2) "
+            "(well-filled and sparse spectra, negative coefficients, log parameters, boot_theta_adjusts); multinom=True against multinom=False on theta*model; "
             "every statistic equals its defining algebra on the code's own matrices and converges at second order when eps is halved; "
             "bootstrap-order independence; interleavings of 2-12 Godambe calls sharing the module cache compared call by call with a "
             "fresh interpreter; sum_chi2_ppf on scalars, arrays and lists against scipy.",
@@ -137,12 +139,12 @@ CHECKS = {
             "folding, labels, comments and values (to the written precision; bit-exact for pickle) compared.",
             "file system of the scratch directory; gzip magic checked on the raw file", "DESIGN.md §2 C14"),
     "C20": ("offline checker over call histories against fresh-interpreter evaluations (O-fresh, SHA-256 digests), hash-seed and memory-layout sweeps, byte snapshots of arguments and numpy.shares_memory at the call boundary",
-            "Histories of 2-40 calls drawn with repetition from a 97-entry catalogue of public calls (3 argument seeds each) so that memo "
+            "Histories of 2-40 calls drawn with repetition from a 100-entry catalogue of public calls (incl. six optimisers with list bounds and Godambe calls at three grid settings) (3 argument seeds each) so that memo "
             "caches are hit cold, warm and in different fill orders; every distinct call re-evaluated alone in a fresh interpreter; whole "
             "histories re-run under PYTHONHASHSEED 1/12345/random; the full catalogue cold-then-warm and (stateful entries; all in "
             "thorough) against fresh runs; every array argument re-laid out five ways (Fortran, double transpose, stride-2 slice, negative "
             "strides, offset buffer; ASan overlay in thorough); arguments byte-identical after the call; integrators return arrays that "
-            "do not share memory with their input.",
+            "do not share memory with their input; which floating-point conditions raise in numpy is the same before and after every call.",
             "layout variants are compared to 1e-11 (a different layout may reorder numpy reductions), everything else bitwise; only "
             "catalogue functions are covered (listed in the evidence)", "DESIGN.md §2 C20"),
 }
